@@ -269,5 +269,37 @@ func ruleTableNeedsDash(w *World, r *Report) {
 		}
 	}
 	r.Expect("alignment appends in the delimiter-row parser", n, 1)
+	// a non-nil result has at least one column: every returned value is nil or the result of one of those appends
+	for _, fn := range w.Funcs {
+		if w.PkgOf(fn) != modPath+"/extension" || fn.Signature.Results().Len() != 1 {
+			continue
+		}
+		resT := fn.Signature.Results().At(0).Type()
+		if sl, ok := resT.Underlying().(*types.Slice); !ok || namedOf(sl.Elem()) != alignT {
+			continue
+		}
+		key := w.FnKey(fn) + ": a non-nil column list is non-empty"
+		bad := ""
+		for _, b := range fn.Blocks {
+			ret, ok := b.Instrs[len(b.Instrs)-1].(*ssa.Return)
+			if !ok || len(ret.Results) != 1 {
+				continue
+			}
+			for _, leaf := range phiLeaves(ret.Results[0]) {
+				if isNilConst(leaf) {
+					continue
+				}
+				if c, ok := leaf.(*ssa.Call); ok && builtinName(c.Common()) == "append" {
+					continue
+				}
+				bad = w.InstrPos(ret)
+			}
+		}
+		if bad != "" {
+			r.Bad(key, bad, "the delimiter-row parser can return a list that is not nil and has no column (an empty allocation that no append touched): the caller's nil test lets a row of bare pipes through and a document without '-' becomes an (empty) table")
+		} else {
+			r.OK(key, w.FnPos(fn), "every returned list is nil or the result of an append under a '-' match")
+		}
+	}
 	_ = sort.Strings
 }
